@@ -34,7 +34,8 @@ META = dict(
         thorough="adds two special characters per value from [.:/_-@+ %&=?#] (169 pairs)"),
     stubs=["aiohttp.ClientSession -> recording stub (session= parameter)", "hmac.new in binance.helpers and "
            "bitstamp.helpers -> recorder of (key, message); HMAC-SHA256 itself is trusted",
-           "time.time in client modules -> scenario clock", "uuid.uuid4 deterministic and distinct",
+           "time.time in client modules -> scenario clock", "the clients' optional limiter (tb=) -> None or an object "
+           "whose consume() returns 5 s / 0.25 s; asyncio.sleep in the client modules advances the scenario clock", "uuid.uuid4 deterministic and distinct",
            "wire = yarl.URL(url).update_query(params).raw_query_string and aiohttp.FormData(data)() body"],
     assumptions=["aiohttp serialises `params` through yarl and `data` through FormData exactly as the installed versions "
                  "do (that code is executed, not modelled)", "the character-level claim is for one free ASCII character "
@@ -137,13 +138,26 @@ def _strings(ctx, tier):
     return gen
 
 
+def _throttle(ctx, module, clk):
+    """The clients' optional request limiter (`tb=`): None, or a limiter that makes every request wait 5 s / 0.25 s.
+    asyncio.sleep inside the client module advances the scenario clock instead of suspending."""
+    wait = [None, 5.0, 0.25][ctx.choice("limiter_wait", 3)]
+
+    async def sleep(seconds):
+        clk[0] = clk[0] + seconds
+    ctx.patch(module, "asyncio", types.SimpleNamespace(sleep=sleep), both_modes=True)
+    if wait is None:
+        return None
+    return types.SimpleNamespace(consume=lambda: wait)
+
+
 def binance_endpoint(ctx, account="spot_account", method="query_order", tier="quick"):
     rec = _HmacRecorder()
     ctx.patch(bn_helpers, "hmac", rec, both_modes=True)
-    clock = CLOCKS[ctx.choice("clock", len(CLOCKS))]
-    ctx.patch(bn_base, "time", types.SimpleNamespace(time=lambda: clock), both_modes=True)
+    clk = [CLOCKS[ctx.choice("clock", len(CLOCKS))]]
+    ctx.patch(bn_base, "time", types.SimpleNamespace(time=lambda: clk[0]), both_modes=True)
     sess = StubSession()
-    api = BnAPIClient(api_key="the-key", api_secret="the-secret", session=sess)
+    api = BnAPIClient(api_key="the-key", api_secret="the-secret", session=sess, tb=_throttle(ctx, bn_base, clk))
     acc = getattr(api, account)
     fn = getattr(acc, method)
     gen = _strings(ctx, tier)
@@ -152,6 +166,7 @@ def binance_endpoint(ctx, account="spot_account", method="query_order", tier="qu
                                           "extraDecimal": Decimal(EXTRA_DECIMALS[ctx.choice("extra_decimal",
                                                                                             len(EXTRA_DECIMALS))])})
     run(fn(**kw))
+    clock = clk[0]              # the time the request went out (the clock only moves while the limiter makes it wait)
     call = sess.calls[-1]
     url, raw_q = _wire_query(call["url_obj"], call["params"])
     signed = any(p.startswith("signature=") for p in raw_q.split("&"))
@@ -187,21 +202,26 @@ def binance_endpoint(ctx, account="spot_account", method="query_order", tier="qu
 def bitstamp_endpoint(ctx, method="get_order_status", tier="quick"):
     rec = _HmacRecorder()
     ctx.patch(bt_helpers, "hmac", rec, both_modes=True)
-    clock = CLOCKS[ctx.choice("clock", len(CLOCKS))]
-    ctx.patch(bt_helpers, "time", types.SimpleNamespace(time=lambda: clock), both_modes=True)
+    clk = [CLOCKS[ctx.choice("clock", len(CLOCKS))]]
+    ctx.patch(bt_helpers, "time", types.SimpleNamespace(time=lambda: clk[0]), both_modes=True)
     sess = StubSession()
-    api = bt_client.APIClient(api_key="the-key", api_secret="the-secret", session=sess)
+    api = bt_client.APIClient(api_key="the-key", api_secret="the-secret", session=sess,
+                              tb=_throttle(ctx, bt_client, clk))
     fn = getattr(api, method)
     gen = _strings(ctx, tier)
     dec = lambda name: ctx.dec("dec_" + name, 4, lo=1, hi=10 ** 9)     # noqa: E731
     kw = _args_for(fn, gen, dec, lambda: {"extra_option": gen("extra_kwarg"),
                                           "extra_decimal": Decimal(EXTRA_DECIMALS[ctx.choice("extra_decimal",
                                                                                              len(EXTRA_DECIMALS))])})
+    sent_at = []
     run(fn(**kw))
+    sent_at.append(clk[0])
     run(fn(**kw))
+    sent_at.append(clk[0])
     nonces = []
     for i, call in enumerate(sess.calls):
         h = call["headers"]
+        clock = sent_at[i]
         if "X-Auth-Signature" not in h:
             ctx.prove(not rec.calls, "C16 bitstamp: public endpoints do not sign")
             continue
